@@ -9,6 +9,7 @@ import (
 	"fmt"
 	"image"
 	"image/color"
+	"math"
 	"math/rand"
 	"os"
 	"sync"
@@ -149,6 +150,39 @@ func main() {
 		out = append(out, res{"adapt", uint64(ad.X*1e6)<<32 | uint64(ad.Z*1e6)})
 		return out
 	}
+	// colour mathematics without lazily built tables: adaptations between DIFFERENT white-point pairs per
+	// goroutine (both constructors), the XYZ conversions of all four spaces, Lab; repeated so that a value
+	// cached or memoised by one goroutine can surface in another
+	whites := []ciexyy.Color{ciexyy.D65, ciexyy.D50, {X: 0.44757, Y: 0.40745, YY: 1}, {X: 0.31006, Y: 0.31616, YY: 1}, {X: 0.33242, Y: 0.34743, YY: 1}, {X: 0.29902, Y: 0.31485, YY: 1}}
+	mathJob := func(g int) []res {
+		h := uint64(1469598103934665603)
+		mix := func(vs ...float32) {
+			for _, v := range vs {
+				h = (h ^ uint64(math.Float32bits(v))) * 1099511628211
+			}
+		}
+		var out []res
+		for it := 0; it < 400; it++ {
+			a, b := whites[(g+it)%len(whites)], whites[(g+2*it+1)%len(whites)]
+			col := ciexyz.Color{X: 0.2 + float32(it%7)/10, Y: 0.3, Z: 0.1 + float32(g%5)/10}
+			v := ciexyz.AdaptBetweenXYYWhitePoints(a, b).Apply(col)
+			w := ciexyz.AdaptBetweenXYZWhitePoints(ciexyz.ColorFromXYY(a), ciexyz.ColorFromXYY(b)).Apply(col)
+			mix(v.X, v.Y, v.Z, w.X, w.Y, w.Z)
+			x1 := srgb.ColorFromLinear(col.X, col.Y, col.Z).ToXYZ()
+			x2 := adobergb.ColorFromLinear(col.X, col.Y, col.Z).ToXYZ()
+			x3 := prophotorgb.ColorFromLinear(col.X, col.Y, col.Z).ToXYZ()
+			x4 := displayp3.ColorFromLinear(col.X, col.Y, col.Z).ToXYZ()
+			c1, c2, c3, c4 := srgb.ColorFromXYZ(col), adobergb.ColorFromXYZ(col), prophotorgb.ColorFromXYZ(col), displayp3.ColorFromXYZ(col)
+			mix(x1.X, x1.Y, x1.Z, x2.X, x2.Y, x2.Z, x3.X, x3.Y, x3.Z, x4.X, x4.Y, x4.Z, c1.R, c1.G, c1.B, c2.R, c2.G, c2.B, c3.R, c3.G, c3.B, c4.R, c4.G, c4.B)
+			lab := col.ToLAB(ciexyz.ColorFromXYY(a))
+			back := ciexyz.ColorFromLAB(lab, ciexyz.ColorFromXYY(b))
+			mix(lab.L, lab.A, lab.B, back.X, back.Y, back.Z)
+			if it%50 == 49 {
+				out = append(out, res{fmt.Sprintf("colour-math iterations %d..%d", it-49, it), h})
+			}
+		}
+		return out
+	}
 	lutJob := func(order []int) func(g int) []res {
 		return func(g int) []res {
 			var out []res
@@ -198,6 +232,10 @@ func main() {
 	case "loaders":
 		for g := 0; g < *n; g++ {
 			jobs = append(jobs, loaderJob)
+		}
+	case "colour-math":
+		for g := 0; g < *n; g++ {
+			jobs = append(jobs, mathJob)
 		}
 	default:
 		for g := 0; g < *n; g++ {
